@@ -7,6 +7,7 @@ import (
 	"encoding/binary"
 	"fmt"
 	"sort"
+	"strings"
 	"sync"
 	"time"
 )
@@ -81,6 +82,10 @@ type lockClient struct {
 	c            *memConn
 	sessionStart int64
 	timeout      time.Duration
+
+	// the currently open read-only object is a generated image (its volume timestamps and PS3
+	// filler are masked in everything read from it)
+	roVirtual, roPS3 bool
 
 	once sync.Once
 	mu   sync.Mutex
@@ -171,7 +176,8 @@ func (lc *lockClient) maskTimes(b []byte, off int) {
 	if maskRecent(ct, lc.sessionStart) == recentMarker {
 		binary.BigEndian.PutUint64(b[off+8:], 0)
 	}
-	if at == mt+atimeShift || maskRecent(at, lc.sessionStart) == recentMarker {
+	// (an object modified during the session keeps its old atime, which is not compared either)
+	if at == mt+atimeShift || maskRecent(at, lc.sessionStart) == recentMarker || maskRecent(mt, lc.sessionStart) == recentMarker {
 		binary.BigEndian.PutUint64(b[off+16:], 0)
 	}
 	binary.BigEndian.PutUint64(b[off:], maskRecent(mt, lc.sessionStart))
@@ -198,6 +204,10 @@ func (lc *lockClient) do(q creq, isDirTarget bool) obs {
 		fixed(8)
 	case opOpenFile:
 		if fixed(16) {
+			cp := "/" + strings.TrimLeft(q.path, "/")
+			ok := int64(binary.BigEndian.Uint64(o.data[0:])) >= 0
+			lc.roVirtual = ok && (strings.HasPrefix(cp, "/***DVD***/") || strings.HasPrefix(cp, "/***PS3***/"))
+			lc.roPS3 = ok && strings.HasPrefix(cp, "/***PS3***/")
 			lc.maskTime(o.data, 8)
 			if isDirTarget && int64(binary.BigEndian.Uint64(o.data[0:])) >= 0 {
 				binary.BigEndian.PutUint64(o.data[0:], 0) // st_size of a directory is not compared
@@ -214,10 +224,16 @@ func (lc *lockClient) do(q creq, isDirTarget bool) obs {
 				o.note = "!BADLEN"
 			} else {
 				fixed(int(n))
+				if lc.roVirtual && len(o.data) > 4 {
+					maskImage(o.data[4:], int64(q.b), lc.roPS3)
+				}
 			}
 		}
 	case opReadFileCritical:
 		fixed(int(uint32(q.a)))
+		if lc.roVirtual {
+			maskImage(o.data, int64(q.b), lc.roPS3)
+		}
 	case opReadCD2048:
 		fixed(int(uint32(q.b)) * 2048)
 	case opReadDirEntry:
